@@ -8,6 +8,8 @@ mod stdmeta;
 mod subsets;
 mod variants;
 mod fraction;
+mod group;
+mod list;
 mod meta;
 mod prec;
 mod sym;
@@ -26,6 +28,8 @@ fn main() {
         "subsets" => subsets::main(&args[1..]),
         "meta" => meta::main(&args[1..]),
         "shared" => shared::main(&args[1..]),
+        "group" => group::main(&args[1..]),
+        "list" => list::main(&args[1..]),
         "builder" => builder::main(&args[1..]),
         "stdmeta" => stdmeta::main(&args[1..]),
         "variants" => variants::main(&args[1..]),
